@@ -90,6 +90,10 @@ pub fn generate_scenario(property: &str, seed: u64, run: u64, thorough: bool) ->
         if r.chance(0.3) {
             f.reconfig = r.log_uniform(0.004, 0.03);
         }
+        // operator error: another genesis key in the configuration, late in the run
+        if matches!(property, "C14") && r.chance(0.12) {
+            f.rotate_genesis = r.log_uniform(0.004, 0.02);
+        }
         // the chain moves inside a node's cycle
         if r.chance(0.35) {
             f.mid_cycle = r.log_uniform(0.05, 0.5);
@@ -406,10 +410,14 @@ impl Driver {
             let boost = if w.counters.contains_key("fault_restart_with_other_protocol_parameters") { 1 } else { 10 };
             choices.push((w100(f.reconfig) * boost, 15));
         }
+        if f.rotate_genesis > 0.0 && self.epochs_done >= 2 {
+            choices.push((w100(f.rotate_genesis), 16));
+        }
         let weights: Vec<u32> = choices.iter().map(|c| c.0.max(1)).collect();
         let action = choices[rng.weighted(&weights)].1;
         match action {
             15 => reconfigure_event(rng, w),
+            16 => Event::RotateGenesisKey,
             0 => Event::Tick,
             1 => Event::Background { polls: rng.range(1, 8) as u32 },
             2 => {
